@@ -1,7 +1,7 @@
 import OdxVerif.Proofs.CompBits2Desc
 import OdxVerif.Proofs.CompCompuDescribed
 /-! Bit-exactness (property C02) for the compu-method leaves, extension W21: `Desc3` — the syntactic mirror of `Described3`
-    (`Desc2` of `Proofs/CompBits2Desc.lean`, copied, plus the conversion leaves `conv` / `convConst`: VALUE / PHYS-CONST over a
+    (`Desc2` of `Proofs/CompBits2Desc.lean`, copied, plus the conversion leaves `conv` / `convDefault` / `convConst`: VALUE (with default) / PHYS-CONST over a
     DOP with a LINEAR / TEXTTABLE compu method or a DTC-DOP).  The layout entry of a conversion leaf is the object of the
     **internal** value: `Lay2.obj … o (o.specRepr i)` — the bits on the wire are those the diag-coded type prescribes for the
     internal value the compu method computes (`ConvOk`), not for the physical value.  `Desc3.foot`: the second footprint law
@@ -21,6 +21,7 @@ inductive Desc3 where
   | leading (l : LeadLeaf)
   | conv (o : Obj) (dop : Dop) (sup val : PVal) (i : IVal)
   | convConst (o : Obj) (dop : Dop) (c val : PVal) (i : IVal) (supplied : Bool)
+  | convDefault (o : Obj) (dop : Dop) (dv : PVal) (omitted : Bool) (sup val : PVal) (i : IVal)
   | matching (n : String) (bp : Option Nat) (reqPos byteLen : Nat) (t : Bytes)
   | struct (name : String) (bp : Option Nat) (bso : Option Nat) (kids : List Desc3)
   | staticField (name : String) (bp : Option Nat) (itemSize : Nat) (bso : Option Nat) (shape : List Param) (items : List (List Desc3))
@@ -43,6 +44,7 @@ def Desc3.mc : Desc3 → MComp
   | .leading l => ⟨Comp.ofLeading l, false⟩
   | .conv o dop sup val i => ⟨Comp.ofConvLeaf o dop sup val i, false⟩
   | .convConst o dop c val i b => ⟨Comp.ofConvPhysConst o dop c val i b, false⟩
+  | .convDefault o dop dv om sup val i => ⟨Comp.ofConvDefault o dop dv om sup val i, false⟩
   | .matching n bp reqPos byteLen t => ⟨Comp.matchingReq n bp reqPos byteLen t, false⟩
   | .struct name bp bso kids =>
     ⟨Comp.ofValue name bp (DComp.structO bso (MComps.cs (Descs3.mcs kids))), MComps.lastMid (Descs3.mcs kids)⟩
@@ -86,6 +88,7 @@ def Desc3.wf : Desc3 → Prop
   | .leading l => l.ok
   | .conv o dop sup val i => o.ok ∧ o.inRange i ∧ ConvOk dop o.dct sup val i
   | .convConst o dop c val i _ => o.ok ∧ o.inRange i ∧ ConvOk dop o.dct c val i ∧ pvalEq c c = true ∧ pvalEq val c = true
+  | .convDefault o dop dv om sup val i => o.ok ∧ o.inRange i ∧ ConvOk dop o.dct sup val i ∧ (om = true → sup = dv)
   | .matching _ _ _ _ _ => False
   | .struct _ _ bso kids =>
     Descs3.wf kids ∧ Comps.namesOk (Descs3.comps kids) ∧ Comps.eopLast (Descs3.comps kids) ∧ sizeSide bso (Descs3.comps kids)
@@ -150,6 +153,9 @@ theorem Desc3.described : (d : Desc3) → d.wf → Described3 d.mc.c d.mc.mid
   | .convConst o dop c val i b, h => by
     simp only [Desc3.wf] at h
     exact Described3.convPhysConst o dop c val i b h.1 h.2.1 h.2.2.1 h.2.2.2.1 h.2.2.2.2
+  | .convDefault o dop dv om sup val i, h => by
+    simp only [Desc3.wf] at h
+    exact Described3.convDefault o dop dv om sup val i h.1 h.2.1 h.2.2.1 h.2.2.2
   | .matching _ _ _ _ _, h => by
     simp only [Desc3.wf] at h
   | .struct name bp bso kids, h => by
@@ -218,6 +224,7 @@ def Desc3.lay : Desc3 → Lay2
   | .leading l => l.lay
   | .conv o _ _ _ i => Lay2.obj .value o.name o (o.specRepr i)
   | .convConst o _ _ _ i _ => Lay2.obj .physConst o.name o (o.specRepr i)
+  | .convDefault o _ _ om _ _ i => Lay2.obj (if om then .default else .value) o.name o (o.specRepr i)
   | .matching n bp reqPos byteLen t => Lay2.matching n bp reqPos byteLen t
   | .struct _ bp bso kids => (Lay2.sized bso (Descs3.lay kids)).atPos bp
   | .staticField _ bp n bso _ items => ((Descss3.layStatic n bso items).inOrigin).atPos bp
@@ -298,6 +305,11 @@ theorem Desc3.foot : (d : Desc3) → (d.wf ∨ ∃ n bp rp bl t, d = .matching n
     rcases h with h | ⟨_, _, _, _, _, h, _⟩
     · simp only [Desc3.wf] at h
       exact Foot2.obj .physConst _ o i h.1 h.2.1
+    · cases h
+  | .convDefault o dop dv om sup val i, h => by
+    rcases h with h | ⟨_, _, _, _, _, h, _⟩
+    · simp only [Desc3.wf] at h
+      exact Foot2.obj _ _ o i h.1 h.2.1
     · cases h
   | .matching n bp reqPos byteLen t, h => by
     rcases h with h | ⟨_, _, _, _, _, h, ht⟩
